@@ -4,6 +4,9 @@ import json, os, subprocess, sys, glob
 V = '/verif'
 only = sys.argv[1:]
 rows = {}
+ALT = {'C15': ['C11', 'C06'], 'C06': ['C15'], 'C20': ['C06'], 'C16': ['C17', 'C11'], 'C11': ['C17'], 'C17': ['C11'], 'C07': ['C10', 'C18'],
+       'C08': ['C04'], 'C13': ['C12'], 'C12': ['C13'], 'C02': ['C13'], 'C09': ['C07'], 'C14': ['C13'], 'C18': ['C07'], 'C10': ['C07'], 'C01': ['C07'],
+       'C03': ['C16'], 'C04': ['C08'], 'C19': ['C13'], 'C05': []}
 if os.path.exists(V + '/seeded/matrix.json'):
     rows = json.load(open(V + '/seeded/matrix.json'))
 for d in sorted(glob.glob(V + '/seeded/C*-*')):
@@ -12,10 +15,21 @@ for d in sorted(glob.glob(V + '/seeded/C*-*')):
     if only and name not in only and prop not in only:
         continue
     patch = d + '/patch_rebased.diff' if os.path.exists(d + '/patch_rebased.diff') else d + '/patch.diff'
-    r = subprocess.run([V + '/tools/try_patch.py', patch, prop], capture_output=True, text=True, cwd=V)
-    first = (r.stdout.strip().splitlines() or ['?'])[0]
-    status = 'DETECTED' if ' DETECTED ' in first else 'MISSED' if ' MISSED ' in first else 'MACHINERY' if 'MACHINERY' in first else first[:80]
-    lines = [l.strip() for l in r.stdout.splitlines() if l.strip().startswith('VIOLATION') is False and l.startswith('      ')]
-    rows[name] = {'property': prop, 'patch': os.path.basename(patch), 'status': status, 'first_report': (lines[0][:300] if lines else '')}
+    def run(p):
+        r = subprocess.run([V + '/tools/try_patch.py', patch, p], capture_output=True, text=True, cwd=V)
+        first = (r.stdout.strip().splitlines() or ['?'])[0]
+        status = 'DETECTED' if ' DETECTED ' in first else 'MISSED' if ' MISSED ' in first else 'MACHINERY' if 'MACHINERY' in first else first[:80]
+        lines = [l.strip() for l in r.stdout.splitlines() if l.strip().startswith('VIOLATION') is False and l.startswith('      ')]
+        return status, (lines[0][:300] if lines else '')
+    status, rep = run(prop)
+    rows[name] = {'property': prop, 'patch': os.path.basename(patch), 'status': status, 'first_report': rep}
+    if status == 'MISSED':
+        # the change may still be seen by the check of a neighbouring property (same layer)
+        for alt in ALT.get(prop, []):
+            st2, rep2 = run(alt)
+            rows[name].setdefault('other_checks', {})[alt] = st2
+            if st2 == 'DETECTED':
+                rows[name]['first_report_other'] = rep2
+                break
     print(name, status, flush=True)
     json.dump(rows, open(V + '/seeded/matrix.json', 'w'), indent=1)
